@@ -8,7 +8,7 @@ kind "lf":    the same with `Fiber.intersection(a, b, style="leader-follower")`,
               trace fed to a LeaderFollowerIntersector.
 kind "swaps": `Compute.numSwaps(tensor, depth, radix, next_latency)`.
 """
-import random, itertools
+import random, itertools, json
 from harness import common as H
 
 PROP = "C19"
@@ -69,18 +69,57 @@ def compositions(k):
             yield [first] + rest
 
 
-def and_case(kind, pairs, sizes, nout, prefixes=None, dflt=0):
-    """pairs: [(a_leaf, b_leaf)], sizes: group sizes, prefixes: outer points (ascending)"""
+def and_case(kind, pairs, sizes, nout, prefixes=None, dflt=0, variant=(), vals="int"):
+    """pairs: [(a, b)] operand specs, sizes: group sizes, prefixes: outer points (ascending).
+    An operand spec is a leaf fiber [[coord, value], …] (values: model ints, see `real_val`),
+    {"u": [lo, hi], "leaf": …, "how": "declared" | "estimated" | "active"} (rank format "U"),
+    or {"lazy": "and" | "sub", "x": leaf, "y": leaf} (a lazy fiber as operand)."""
     k = len(pairs)
     if prefixes is None:
         if nout == 0:
             prefixes = [[] for _ in range(k)]
         elif nout == 1:
             prefixes = [[2 * i + 1] for i in range(k)]
-        else:
+        elif nout == 2:
             prefixes = [[i // 2, 3 * (i % 2) + 1] for i in range(k)]
-    return {"prop": PROP, "kind": kind, "n": nout + 1, "dflt": dflt,
-            "pairs": [[a, b] for a, b in pairs], "prefixes": prefixes, "sizes": sizes}
+        else:
+            prefixes = [[i // 4, (i // 2) % 2, 3 * (i % 2) + 1] for i in range(k)]
+    c = {"prop": PROP, "kind": kind, "n": nout + 1, "dflt": dflt,
+         "pairs": [[a, b] for a, b in pairs], "prefixes": prefixes, "sizes": sizes}
+    if variant:
+        c["variant"] = list(variant)
+    if vals != "int":
+        c["vals"] = vals
+        c["variant"] = c.get("variant", []) + ["vals=" + vals]
+    return c
+
+
+def u_operand(coords, how, extra=0):
+    """leaf fiber on a rank of format "U": presents its whole active range"""
+    top = (max(coords) + 1) if coords else 0
+    if how == "estimated":
+        rng = [0, top]
+    elif how == "declared":
+        rng = [0, top + extra]
+    else:                       # restricted active range inside a declared shape
+        rng = [1, max(top + extra - 1, 1)]
+    return {"u": rng, "leaf": leaf(coords), "how": how, "shape": top + extra}
+
+
+def lazy_operand(op, x, y):
+    return {"lazy": op, "x": leaf(x), "y": leaf(y)}
+
+
+def real_val(v, dflt, vals):
+    """the payload value the real fiber gets for the model's int `v` (injective, and `v == dflt`
+    iff the real value equals the real default)"""
+    if vals == "float":
+        return v + 0.5
+    if vals == "neg":
+        return -v - 1
+    if vals == "bool":
+        return v != dflt
+    return v
 
 
 def gen_and_small(tier):
@@ -107,6 +146,10 @@ def gen_and_small(tier):
                     if tier != "quick" and sizes == [1, 1, 1] and not (
                             repr(x) in small and repr(y) in small and repr(z) in small):
                         continue
+                    if tier == "quick" and sizes == [1, 1, 1] and (len(x[0]) + len(y[1]) + len(z[0])) % 2:
+                        continue        # quick: fiber by fiber on every other triple only
+                    if tier != "quick" and len(sizes) == 2 and (len(x[0]) + len(y[1]) + len(z[0]) + sizes[0]) % 2:
+                        continue        # thorough (262144 triples): each mixed grouping on half of them
                     yield and_case("and", [x, y, z], sizes, 2 if len(sizes) == 2 else 1)
     # calls that receive nothing: before the first intersection (as when the traces are handed
     # over at the top of every outer iteration), between two intersections, after the last one
@@ -116,11 +159,14 @@ def gen_and_small(tier):
                 yield and_case("and", [(leaf(a), leaf(b))], sizes, 1)
     for x in p2:
         for y in p2:
-            for sizes in ([0, 1, 1], [1, 0, 1, 0], [0, 2, 0]) if tier == "quick" else ([0, 1, 1], [1, 0, 1, 0]):
+            for sizes in ([0, 1, 1], [1, 0, 1, 0]):
                 yield and_case("and", [x, y], sizes, 1)
+    for i, x in enumerate(p2):
+        for y in p2[i % 3:: 3]:
+            yield and_case("and", [x, y], [0, 2, 0], 1)
     for x in p3s:
         for y in p3s:
-            for z in p3s:
+            for z in p3s[:: (2 if tier == "quick" else 1)]:
                 yield and_case("and", [x, y, z], [0, 1, 0, 2], 1)
     for x in p2:
         for sizes in ([0, 1], [0, 1, 0]):
@@ -128,6 +174,7 @@ def gen_and_small(tier):
         for y in p2[:: (1 if tier != "quick" else 3)]:
             for sizes in ([0, 1, 1], [1, 0, 1, 0]):
                 yield and_case("lf", [x, y], sizes, 1)
+    yield from gen_and_widened(tier, s2, p2)
     # calls only, no intersection at all: every model reports 0
     for kind in ("and", "lf"):
         for sizes in ([0], [0, 0]):
@@ -144,6 +191,67 @@ def gen_and_small(tier):
                 yield and_case("lf", [x, y], sizes, 1)
 
 
+COORD_MAPS = [[2, 9, 10, 99, 100, 1000], [-7, -1, 0, 9, 10, 11], [0, 1, 2, 3, 4, 5]]
+
+
+def remap(lf, m):
+    return [[m[c], v] for c, v in lf]
+
+
+def gen_and_widened(tier, s2, p2):
+    """operand / driving variants (one or two fibers, every grouping incl. an empty first call)"""
+    sub = s2 if tier != "quick" else s2[::1]
+    groupings1 = ([1], [0, 1])
+    groupings2 = ([1, 1], [2], [0, 1, 1])
+    # rank format "U" on one or both operands: declared (larger than needed), estimated, restricted
+    for a in sub:
+        for b in sub:
+            for how_a, how_b in (("declared", None), (None, "estimated"), ("estimated", "declared"), ("active", "active")):
+                if (how_a == "estimated" and not a) or (how_b == "estimated" and not b):
+                    continue
+                oa = u_operand(a, how_a, 1) if how_a else leaf(a)
+                ob = u_operand(b, how_b, 2) if how_b else leaf(b)
+                for sizes in groupings1:
+                    yield and_case("and", [(oa, ob)], sizes, 1, variant=["format-U"])
+                if how_a != "active":
+                    yield and_case("and", [(oa, ob)], [1], 1, variant=["format-U", "tensor-owned"])
+                yield and_case("and", [(oa, ob), (leaf(b), leaf(a))], [2], 1, variant=["format-U"])
+    # lazy fibers as operands, on either side
+    for x in sub:
+        for y in sub:
+            for z in sub[:: (1 if tier != "quick" else 2)]:
+                for spec in (("and", 0), ("sub", 0), ("and", 1), ("sub", 1)):
+                    lz = lazy_operand(spec[0], x, y)
+                    pair = (lz, leaf(z)) if spec[1] == 0 else (leaf(z), lz)
+                    yield and_case("and", [pair], [1], 1, variant=["lazy-operand"])
+                yield and_case("and", [(lazy_operand("and", x, y), lazy_operand("sub", z, x)), (leaf(y), leaf(z))],
+                               [2], 1, variant=["lazy-operand"])
+                yield and_case("and", [(lazy_operand("sub", x, y), lazy_operand("and", z, x))], [1], 1,
+                               variant=["lazy-operand"])
+    # how the harness drives the library: operands built before beginCollect, the same Fiber
+    # objects intersected again, the same lazy result iterated again, Fiber.intersection()
+    for x in p2:
+        for var, sizes in (("prebuilt", [1, 1]), ("same-operands", [2]), ("same-result", [0, 1, 1]),
+                           ("same-result", [2]), ("intersection-two-finger", [1, 1])):
+            yield and_case("and", [x, x], sizes, 1, variant=[var])
+    # an operand mutated in place between two intersections (grown past its old extent by
+    # Fiber.append, and an explicit default set at an absent point by getPayloadRef), same objects
+    for i, x in enumerate(p2):
+        grown = (x[0] + [[7, 1]], x[1] + [[8, 1]]) if i % 2 else (x[0] + [[7, 1], [9, 1]], x[1])
+        for sizes in ([1, 1], [2]):
+            yield and_case("and", [x, grown], sizes, 1, variant=["operand-mutated-between"])
+    # value kinds, multi-digit / negative coordinates, three outer ranks
+    for i, x in enumerate(p2):
+        y = p2[(7 * i + 3) % len(p2)]
+        for vals in ("float", "bool", "neg"):
+            yield and_case("and", [x, y], [2], 1, vals=vals)
+        for m in COORD_MAPS[:2]:
+            c = and_case("and", [(remap(x[0], m), remap(x[1], m)), (remap(y[0], m), remap(y[1], m))], [2], 1,
+                         prefixes=[[m[1]], [m[3]]], variant=["coords-multidigit"])
+            yield c
+        yield and_case("and", [x, y, x, y, y], [2, 0, 3], 3, variant=["outer-ranks=3"])
+
+
 def rand_leaf(rng, n, dflt, p=0.5, pdef=0.1):
     out = []
     for c in range(n):
@@ -158,8 +266,10 @@ def rand_prefixes(rng, k, nout):
     if nout == 1:
         cs = sorted(rng.sample(range(3 * k + 2), k))
         return [[c] for c in cs]
-    # two outer ranks: ascending points of a 2-level tree
-    pts = sorted(rng.sample([(m, j) for m in range(4) for j in range(5)], k))
+    if nout == 2:   # ascending points of a 2-level tree (multi-digit coordinates included)
+        pts = sorted(rng.sample([(m, j) for m in (0, 2, 9, 10) for j in (1, 5, 9, 10, 100)], k))
+        return [list(p) for p in pts]
+    pts = sorted(rng.sample([(q, m, j) for q in (0, 3) for m in range(3) for j in range(4)], k))
     return [list(p) for p in pts]
 
 
@@ -167,13 +277,42 @@ def gen_and_random(rng, count):
     for i in range(count):
         kind = "lf" if i % 8 == 7 else "and"
         k = rng.choice([1, 2, 2, 3, 3, 4, 5])
-        nout = rng.choice([1, 1, 2]) if k > 1 else rng.choice([0, 1, 2])
+        nout = rng.choice([1, 1, 2, 3]) if k > 1 else rng.choice([0, 1, 2, 3])
         dflt = rng.choice([0, 0, 7])
         n = rng.choice([3, 5, 8, 12])
+        nmax = n
         pairs = []
         for _ in range(k):
+            n = max(2, n + rng.choice([-2, 0, 0, 3]))      # ragged: later fibers wider / narrower
+            nmax = max(nmax, n)
             pa, pb = rng.choice([(0.5, 0.5), (0.8, 0.3), (0.2, 0.9), (0.0, 0.5), (0.6, 0.0), (0.9, 0.9)])
             pairs.append((rand_leaf(rng, n, dflt, pa), rand_leaf(rng, n, dflt, pb)))
+        variant, vals, m = [], "int", None
+        r = rng.random()
+        if r < 0.12:                     # rank format "U" on some operands (small coordinates)
+            pairs = [tuple(u_operand([c for c, _ in o], rng.choice(["declared", "estimated", "active"]), rng.choice([0, 1, 3]))
+                           if rng.random() < 0.5 and o else o for o in pr) for pr in pairs]
+            variant.append("format-U")
+        elif r < 0.24:                   # lazy operands
+            def lz(o):
+                other = rand_leaf(rng, n, dflt, 0.5, 0.0)
+                return {"lazy": rng.choice(["and", "sub"]), "x": o, "y": other}
+            # (the follower of a leader-follower intersection is looked up by coordinate and
+            #  cannot be lazy: only the leader is made lazy there)
+            pairs = [tuple(lz(o) if rng.random() < 0.5 and not (kind == "lf" and side == 1) else o
+                           for side, o in enumerate(pr)) for pr in pairs]
+            variant.append("lazy-operand")
+        elif r < 0.36:
+            vals = rng.choice(["float", "bool", "neg"])
+        elif r < 0.48:                   # multi-digit / negative coordinates (monotone renaming)
+            m = sorted(rng.sample(range(-20, 1200), nmax))
+            pairs = [(remap(pa, m), remap(pb, m)) for pa, pb in pairs]
+            variant.append("coords-multidigit")
+        if kind == "and" and rng.random() < 0.15:
+            variant.append(rng.choice(["prebuilt", "intersection-two-finger"]))
+        if rng.random() < 0.1 and "lazy-operand" not in variant and not any(
+                isinstance(o, dict) and o.get("how") == "active" for pr in pairs for o in pr):
+            variant.append("tensor-owned")
         sizes = rng.choice(list(compositions(k)))
         if rng.random() < 0.3:
             sizes = [1] * k
@@ -183,16 +322,30 @@ def gen_and_random(rng, count):
                 sizes.insert(rng.randrange(len(sizes) + 1), 0)
             if rng.random() < 0.3:       # "top of every outer iteration, and once after the loop"
                 sizes = [0] + [1] * k
-        yield and_case(kind, pairs, sizes, nout, rand_prefixes(rng, k, nout), dflt)
+        yield and_case(kind, pairs, sizes, nout, rand_prefixes(rng, k, nout), dflt, variant=variant, vals=vals)
 
 
 RADICES = [2, 3, 4, 5, "inf"]
 LATS = [1, 2, "N"]
 
 
-def swaps_case(tree, e, depth, radix, lat, dflt=0):
-    return {"prop": PROP, "kind": "swaps", "e": e, "depth": depth, "dflt": dflt, "t": tree,
-            "radix": radix, "lat": lat}
+def swaps_case(tree, e, depth, radix, lat, dflt=0, variant=()):
+    c = {"prop": PROP, "kind": "swaps", "e": e, "depth": depth, "dflt": dflt, "t": tree,
+         "radix": radix, "lat": lat}
+    if variant:
+        c["variant"] = list(variant)
+    return c
+
+
+SWAP_VARIANTS = ["format-U-all", "format-U-leaf", "format-U-top", "fiber-default-differs", "float-values",
+                 "called-twice", "bool-values"]
+
+
+def remap_tree(t, depth_levels, m):
+    """monotone renaming of the coordinates of every rank"""
+    if depth_levels == 0:
+        return t
+    return [[m[c], remap_tree(sub, depth_levels - 1, m)] for c, sub in t]
 
 
 def valued_children(ncoords, values):
@@ -209,7 +362,7 @@ def gen_swaps_small(tier):
     for m in range(0, mmax + 1):
         for combo in itertools.product(kids, repeat=m):
             tree = [[2 * i, ch] for i, ch in enumerate(combo)]
-            for radix in RADICES:
+            for radix in (RADICES if (tier != "quick" or m < 3) else [2, 3, "inf"]):
                 for lat in LATS:
                     yield swaps_case(tree, 0, 0, radix, lat)
     # many short lists: several rounds
@@ -229,6 +382,34 @@ def gen_swaps_small(tier):
                 yield swaps_case(tree, 0, 0, radix, lat)
 
 
+def gen_swaps_widened(tier):
+    """how the tensor is built / described (formats, defaults, value kinds), unusual arguments,
+    multi-digit and negative coordinates, merge level two below the root"""
+    kids = [leaf(s) for s in subsets(3)]
+    i = 0
+    for m in range(1, 4):
+        for combo in itertools.product(kids, repeat=m):
+            tree = [[2 * j, ch] for j, ch in enumerate(combo)]
+            i += 1
+            var = SWAP_VARIANTS[i % len(SWAP_VARIANTS)]
+            yield swaps_case(tree, 0, 0, 2, 1 if i % 2 else "N", variant=[var])
+            if i % 3 == 0:
+                mp = COORD_MAPS[i % 2]
+                yield swaps_case(remap_tree(tree, 2, mp), 0, 0, 3, "N" if i % 2 else 2, variant=["coords-multidigit"])
+            if i % 5 == 0:
+                yield swaps_case(tree, 0, 0, 2, 0, variant=["latency-0"])
+                yield swaps_case(tree, 0, 0, 100, 3, variant=["radix-large"])
+    # depth 2 (four ranks): roots of <= 2 fibers of <= 2 fibers of <= 2 leaf fibers
+    kids2 = [leaf(s) for s in subsets(2)]
+    mids = [[[j, ch] for j, ch in enumerate(combo)] for m in (0, 1, 2) for combo in itertools.product(kids2[1:], repeat=m)]
+    tops = [[[j, md] for j, md in enumerate(combo)] for m in (1, 2) for combo in itertools.product(mids[::2], repeat=m)]
+    for m in (1, 2):
+        for combo in itertools.product(tops[:: (3 if tier == "quick" else 1)], repeat=m):
+            tree = [[5 * j, tp] for j, tp in enumerate(combo)]
+            yield swaps_case(tree, 0, 2, 2, "N", variant=["depth-2"])
+            yield swaps_case(tree, 0, 2, "inf", 2, variant=["depth-2"])
+
+
 def gen_swaps_depth1(tier):
     """merge level one below the root (depth 1): every root of <= 2 second-level fibers, each of
     <= 2 leaf fibers over 2 coordinates (incl. empty ones, which the walk skips)"""
@@ -245,30 +426,37 @@ def gen_swaps_depth1(tier):
 def gen_swaps_random(rng, count):
     for _ in range(count):
         e = rng.choice([0, 0, 1])
-        depth = rng.choice([0, 0, 1])
+        depth = rng.choice([0, 0, 1, 2])
         dflt = rng.choice([0, 0, 7])
         n = rng.choice([2, 3, 4, 6])
         pdef = rng.choice([0.0, 0.0, 0.15, 0.4])
         tree = H.gen_tree(rng, e + 2 + depth, n, (1, 2, -3, 5), dflt, p_absent=rng.choice([0.2, 0.4]),
                           p_default=pdef, p_emptysub=rng.choice([0.0, 0.1]),
                           p_alldefault=rng.choice([0.0, 0.1]))
-        yield swaps_case(tree, e, depth, rng.choice(RADICES + [2, 2, 7]), rng.choice(LATS + [3, 10]), dflt)
+        variant = [rng.choice(SWAP_VARIANTS)] if rng.random() < 0.4 else []
+        if rng.random() < 0.15:
+            mp = sorted(rng.sample(range(-30, 1500), n))
+            tree = remap_tree(tree, e + 2 + depth, mp)
+            variant.append("coords-multidigit")
+        yield swaps_case(tree, e, depth, rng.choice(RADICES + [2, 2, 7, 100]), rng.choice(LATS + [3, 10, 0]), dflt,
+                         variant=variant)
 
 
 def gen(seed, tier):
     yield from gen_and_small(tier)
     yield from gen_swaps_small(tier)
     yield from gen_swaps_depth1(tier)
+    yield from gen_swaps_widened(tier)
     rng = random.Random(seed)
-    yield from gen_and_random(rng, 4000 if tier == "quick" else 150000)
-    yield from gen_swaps_random(rng, 3000 if tier == "quick" else 100000)
+    yield from gen_and_random(rng, 3200 if tier == "quick" else 120000)
+    yield from gen_swaps_random(rng, 2400 if tier == "quick" else 80000)
 
 
 # ---------------------------------------------------------------------------------------
 # running the real code
 # ---------------------------------------------------------------------------------------
 
-RANKS = ["M", "J"]
+RANKS = ["N", "M", "J"]
 
 
 def _outer_tree(prefixes, nout):
@@ -322,7 +510,10 @@ def _walk(f, nout, level=0):
 
 def _feed(obj, *traces):
     try:
+        keep = [[list(r) for r in t] for t in traces]
         obj.addTraces(*traces)
+        if keep != [[list(r) for r in t] for t in traces]:
+            return "mutated"
         return True
     except _Timeout:
         raise
@@ -330,11 +521,60 @@ def _feed(obj, *traces):
         return False
 
 
+def _leaf_fiber(lf, dflt, vals, **kw):
+    Fiber = H.ft().Fiber
+    f = Fiber([c for c, _ in lf], [real_val(v, dflt, vals) for _, v in lf],
+              default=real_val(dflt, dflt, vals), **kw)
+    f.getRankAttrs().setId("K")
+    return f
+
+
+_keep = []     # tensors owning operand fibers stay alive for the duration of a case
+
+
+def _owned(lf, dflt, vals, fmt=None, shape=None):
+    """the operand as the root fiber of a one-rank tensor (format set through the tensor)"""
+    Tensor = H.ft().Tensor
+    f = _leaf_fiber(lf, dflt, vals)
+    kw = {"shape": [shape]} if shape is not None else {}
+    t = Tensor.fromFiber(rank_ids=["K"], fiber=f, default=real_val(dflt, dflt, vals), **kw)
+    if fmt:
+        t.setFormat("K", fmt)
+    _keep.append(t)
+    return t.getRoot()
+
+
+def build_operand(spec, dflt, vals, owned=False):
+    """a real operand of `a & b` from its spec (public constructors / operators only)"""
+    if owned and isinstance(spec, list):
+        return _owned(spec, dflt, vals)
+    if owned and "u" in spec and spec["how"] in ("estimated", "declared"):
+        return _owned(spec["leaf"], dflt, vals, "U", spec["shape"] if spec["how"] == "declared" else None)
+    if isinstance(spec, list):
+        return _leaf_fiber(spec, dflt, vals)
+    if "u" in spec:
+        how = spec["how"]
+        if how == "estimated":
+            f = _leaf_fiber(spec["leaf"], dflt, vals)
+        elif how == "declared":
+            f = _leaf_fiber(spec["leaf"], dflt, vals, shape=spec["shape"])
+        else:
+            f = _leaf_fiber(spec["leaf"], dflt, vals, shape=spec["shape"], active_range=tuple(spec["u"]))
+        f.getRankAttrs().setFormat("U")
+        return f
+    x = _leaf_fiber(spec["x"], dflt, vals)
+    y = _leaf_fiber(spec["y"], dflt, vals)
+    z = (x & y) if spec["lazy"] == "and" else (x - y)
+    z.getRankAttrs().setId("K")
+    return z
+
+
 def run_and(case):
     ft, M = H.ft(), model()
     Fiber, Metrics = ft.Fiber, ft.Metrics
     nout, dflt, kind = case["n"] - 1, case["dflt"], case["kind"]
     pairs, prefixes, sizes = case["pairs"], case["prefixes"], case["sizes"]
+    variant, vals = set(case.get("variant", [])), case.get("vals", "int")
     root, stamps = _outer_tree(prefixes, nout)
     # what the Lean side needs: fibers grouped, each with its outer iteration stamps and point
     groups, i = [], 0
@@ -343,6 +583,41 @@ def run_and(case):
                        for j in range(i, i + s)])
         i += s
     case["groups"] = groups
+    built = {}
+    del _keep[:]
+
+    def operands(idx):
+        """fresh operands for every intersection, unless the variant says otherwise"""
+        if "operand-mutated-between" in variant and idx > 0 and idx not in built:
+            a, b = built[0]
+            for f, old, new in ((a, pairs[idx - 1][0], pairs[idx][0]), (b, pairs[idx - 1][1], pairs[idx][1])):
+                for c, v in new[len(old):]:
+                    f.append(c, real_val(v, dflt, vals))
+            built[idx] = (a, b)
+        key = idx if not ({"same-operands", "same-result"} & variant) else json.dumps(pairs[idx])
+        if key not in built:
+            ow = "tensor-owned" in variant
+            built[key] = (build_operand(pairs[idx][0], dflt, vals, ow), build_operand(pairs[idx][1], dflt, vals, ow))
+        return built[key]
+
+    results = {}
+
+    def result(idx):
+        a, b = operands(idx)
+        key = json.dumps(pairs[idx]) if "same-result" in variant else idx
+        if key not in results:
+            if kind == "lf":
+                results[key] = Fiber.intersection(a, b, style="leader-follower")
+            elif "intersection-two-finger" in variant:
+                results[key] = Fiber.intersection(a, b)
+            else:
+                results[key] = a & b
+        return results[key]
+
+    if "prebuilt" in variant:             # operands exist before the collection bracket opens
+        for idx in range(len(pairs)):
+            operands(idx)
+    side = {}
     if kind == "and":
         objs = {"tf": M.TwoFinger(), "sa": M.SkipAhead(), "lf0": M.LeaderFollower(), "lf1": M.LeaderFollower()}
     else:
@@ -359,10 +634,16 @@ def run_and(case):
             for k, tr in (("tf", (t0, t1)), ("sa", (t0, t1)), ("lf0", (t0,)), ("lf1", (t1,))):
                 if alive[k]:
                     alive[k] = _feed(objs[k], *[list(x) for x in tr])
+                    if alive[k] == "mutated":
+                        side["traces_unchanged"] = False
+                        alive[k] = True
         else:
             batches.append(t0)
             if alive["lf"]:
                 alive["lf"] = _feed(objs["lf"], list(t0))
+                if alive["lf"] == "mutated":
+                    side["traces_unchanged"] = False
+                    alive["lf"] = True
 
     Metrics.beginCollect()
     try:
@@ -374,16 +655,12 @@ def run_and(case):
             for _ in range(size):
                 if nout > 0 or idx == 0:
                     next(walker)
-                a = H.build_fiber(pairs[idx][0], 1, dflt)
-                b = H.build_fiber(pairs[idx][1], 1, dflt)
-                a.getRankAttrs().setId("K")
-                b.getRankAttrs().setId("K")
-                if kind == "and":
-                    z = a & b
-                else:
-                    z = Fiber.intersection(a, b, style="leader-follower")
-                for _ in z:
+                a, b = operands(idx)
+                before = (H.snapshot(a), H.snapshot(b)) if not a.isLazy() and not b.isLazy() else None
+                for _ in result(idx):
                     pass
+                if before is not None and before != (H.snapshot(a), H.snapshot(b)):
+                    side["operands_unchanged"] = False
                 idx += 1
             consume()
         for _ in walker:   # let the outer loops finish
@@ -399,21 +676,44 @@ def run_and(case):
     for k, o in objs.items():
         impl[k] = o.getNumIntersects() if alive[k] else "ERR"
     case["impl"] = impl
+    if side:
+        case["side"] = side
     return case
+
+
+def _build_tree(tree, levels, dflt, vals, fdflt):
+    """real fibers for a model tree: leaf values through `real_val`, every fiber with default
+    `fdflt` (which the variant may choose different from the tensor's)"""
+    F = H.ft().Fiber
+    if levels == 1:
+        return F([c for c, _ in tree], [real_val(v, dflt, vals) for _, v in tree], default=fdflt)
+    return F([c for c, _ in tree], [_build_tree(sub, levels - 1, dflt, vals, fdflt) for _, sub in tree],
+             default=fdflt)
 
 
 def run_swaps(case):
     ft, M = H.ft(), model()
     e, depth, dflt = case["e"], case["depth"], case["dflt"]
+    variant = set(case.get("variant", []))
     nr = e + 2 + depth
     radix = float("inf") if case["radix"] == "inf" else case["radix"]
+    vals = "float" if "float-values" in variant else ("bool" if "bool-values" in variant else "int")
+    tdflt = real_val(dflt, dflt, vals)
+    fdflt = real_val(dflt + 3, dflt, vals) if "fiber-default-differs" in variant and vals == "int" else tdflt
     try:
-        root = H.build_fiber(case["t"], nr, dflt)
+        root = _build_tree(case["t"], nr, dflt, vals, fdflt)
         ids = [f"R{nr - i}" for i in range(nr)]
-        t = ft.Tensor.fromFiber(rank_ids=ids, fiber=root, default=dflt)
+        t = ft.Tensor.fromFiber(rank_ids=ids, fiber=root, default=tdflt)
+        fmt_ranks = (ids if "format-U-all" in variant else ids[-1:] if "format-U-leaf" in variant
+                     else ids[:1] if "format-U-top" in variant else [])
+        for r in fmt_ranks:
+            t.setFormat(r, "U")
         before = H.snapshot(t.getRoot())
         case["impl"] = M.Compute.numSwaps(t, depth, radix, case["lat"])
-        case["side"] = {"tensor_unchanged": H.snapshot(t.getRoot()) == before}
+        side = {"tensor_unchanged": H.snapshot(t.getRoot()) == before}
+        if "called-twice" in variant:
+            side["second_call_equal"] = M.Compute.numSwaps(t, depth, radix, case["lat"]) == case["impl"]
+        case["side"] = side
     except _Timeout:
         raise
     except Exception as ex:
@@ -505,6 +805,10 @@ def signature(case, verdict, failed):
     kind = case["kind"]
     why = verdict.get("why", "")
     part = why[why.find("specfail="):] if "specfail=" in why else ""
+    if kind == "and" and failed == ["spec"] and any(
+            isinstance(a, dict) and a.get("lazy") == "sub" and isinstance(b, dict) and b.get("lazy") == "and"
+            for a, b in case["pairs"]):
+        return "and:lazy-difference-then-lazy-intersection:trace-label-reuse"
     return f"{kind}:{'/'.join(sorted(failed))}:{part}"
 
 
@@ -553,6 +857,8 @@ def shrink_candidates(case):
     # drop an element of an operand
     for i, (a, b) in enumerate(pairs):
         for side, f in ((0, a), (1, b)):
+            if not isinstance(f, list):      # format-U / lazy operand specs are kept as they are
+                continue
             for j in range(len(f)):
                 p2 = [list(p) for p in pairs]
                 p2[i][side] = f[:j] + f[j + 1:]
